@@ -185,7 +185,10 @@ for x in range(5):
         for k in range(64):
             ref=z3.Extract(k,k,A3[x][y])==1
             diff.append(outs[i]!=ref); i+=1
-# soundness/functional: constraints (asserts) hold is automatic? check asserts are tautologies too
-s.push(); s.add(z3.Or(*diff)); t=time.time(); r=s.check(); print("equiv query:",r,round(time.time()-t,2),"s"); s.pop()
-if asserts:
-    s.push(); s.add(z3.Or(*[z3.Not(zb[a]) if not isinstance(a,tuple) else z3.BoolVal(a[1]==0) for a in asserts])); r=s.check(); print("assertion-constraints can fail?:",r); s.pop()
+
+import time
+tt=time.time(); worst=0
+for lane in range(25):
+    s.push(); s.add(z3.Or(*diff[lane*64:(lane+1)*64])); t=time.time(); r=s.check(); dt=time.time()-t; worst=max(worst,dt); s.pop()
+    assert r==z3.unsat,(lane,r)
+print("25 per-lane queries all unsat; total",round(time.time()-tt,1),"s; worst lane",round(worst,1),"s")
